@@ -6,8 +6,9 @@ Universe of this file (`tyOK`): message types whose fields are `bool`, the six i
 (`int int32 int64 uint uint32 uint64`; plain, zigzag32/64 on the signed ones, fixed32/64 on `uint32/uint64` and —
 sfixed32/sfixed64 — on `int32/int64`),
 `float32/float64`, `string`, `[]byte`, nested messages of the same shape, optional fields `*T` (`T` a scalar other
-than `[]byte`, or a message) and repeated fields `[]T` (`T` a scalar, `[]byte`, or a message).  No maps, arrays,
-named types, `[]*T`, `**T`.
+than `[]byte`, a byte array, or a message) and repeated fields `[]T` (`T` a scalar, `[]byte`, a byte array or a message);
+byte arrays `[N]byte` (`.arr N (.int .u8)`: one LEN record of N bytes, elided when all zero).  No maps (see
+`ProtoMapDefs.tyOKM`), named types (see `ProtoNamedMain.tyOK2`), `[]*T`, `**T`.
 
   * `tyOK / fieldsOK / tagAgree / optOK`  decidable well-formedness of the type (incl. "both sides read the struct
                                   tag alike"; proved for untagged fields: `tagAgree_empty`)
@@ -62,7 +63,17 @@ def elemTy (e : Ty) : Bool := !isPtr e && !isSlice e
 /-- what an optional (pointer) field may point to in this universe: a scalar other than `[]byte`, or a message -/
 def ptrTarget : Ty → Bool
   | .bool | .int _ | .f32 | .f64 | .str | .struct _ => true
+  | .arr _ _ => true
   | _ => false
+
+/-- element type of a byte array -/
+def isByte : Ty → Bool
+  | .int .u8 => true
+  | _ => false
+
+theorem isByte_eq (t : Ty) (h : isByte t = true) : t = .int .u8 := by
+  cases t <;> simp [isByte] at h ⊢
+  rename_i k; cases k <;> simp [isByte] at h ⊢
 
 def isFixedWire : Wire → Bool
   | .fixed32 | .fixed64 => true
@@ -114,6 +125,7 @@ def tyOK : Ty → Bool
   | .struct fs => fieldsOK 1 fs && decide (fieldNums 1 fs).Nodup
   | .ptr t' => ptrTarget t' && tyOK t'
   | .slice e => elemTy e && tyOK e
+  | .arr _ e => isByte e                      -- byte arrays `[N]byte`
   | _ => false
 def fieldsOK (pos : Nat) : Fields → Bool
   | .nil => true
@@ -136,6 +148,7 @@ def hasType : Ty → Val → Bool
   | .ptr t', .ptr v => hasType t' v
   | .slice _, .nil => true
   | .slice e, .list vs => hasTypeList e vs
+  | .arr n e, .str s => isByte e && decide (s.length = n)       -- a `[N]byte` value has exactly N bytes
   | _, _ => false
 def hasTypeList (e : Ty) : Vals → Bool
   | .nil => true
@@ -171,6 +184,7 @@ def payload (wz : Bool) : Ty → FieldOpt → Val → Option WireVal
   | .str, _, .str s => if !s.isEmpty || wz then some (.len s) else none
   | .bytes, _, .str s => some (.len s)
   | .bytes, _, .nil => if wz then some (.len []) else none
+  | .arr _ _, _, .str s => if !isZeroBytes s || wz then some (.len s) else none    -- the all-zero array is the default
   | .struct fs, _, .struct vs =>
     let body := (recordsOf wz 1 fs vs ++ recordsR 1 fs vs).flatMap encRec
     if body.isEmpty then none else some (.len body)
@@ -447,6 +461,9 @@ theorem fs_len (num : Nat) (hn : num < 2 ^ 29) (c : Codec) (v : Val) (fl : Flags
   · simp only [fieldBytes, hw, he, Bool.false_eq_true, if_false, List.append_nil]
     rw [← List.append_assoc, rec_varlen num hn b hb]
 
+theorem fixLen_length (s : Bytes) : fixLen s.length s = s := by
+  simp [fixLen]
+
 theorem field_scalar (t : Ty) (o : FieldOpt) (v : Val) (fl : Flags) (num : Nat)
     (hs : isStructTy t = false) (hnp : isPtr t = false) (hns : isSlice t = false) (ht : tyOK t = true)
     (hv : hasType t v = true) (ho : optOK t o = true)
@@ -555,6 +572,21 @@ theorem field_scalar (t : Ty) (o : FieldOpt) (v : Val) (fl : Flags) (num : Nat)
       · simp only [h, if_true]
         exact fs_len num hn _ _ _ [] rfl (by simp only [encode, h, if_true]; rfl) (by simp)
       · simp [FieldSpec, h, size]
+  case arr n e =>
+    have := isByte_eq e ht; subst this
+    cases v <;> simp only [hasType, Bool.and_eq_true, decide_eq_true_eq] at hv <;> try (exact absurd hv (by decide))
+    rename_i s
+    obtain ⟨_, hv⟩ := hv
+    subst hv
+    simp only [payload, codecFor, codecOf] at hlen ⊢
+    by_cases h : (!isZeroBytes s || fl.wantzero) = true
+    · have h' : (fl.wantzero || !isZeroBytes s) = true := by rw [Bool.or_comm]; exact h
+      simp only [h, if_true]
+      simp only [encode, h', if_true, fixLen_length, List.length_append] at hlen
+      exact fs_len num hn _ _ _ s rfl (by simp only [encode, h', if_true, fixLen_length]) (by omega)
+    · have h' : (fl.wantzero || !isZeroBytes s) = false := by
+        rw [Bool.or_comm]; simpa using h
+      simp [FieldSpec, h, size, h']
 
 /-! ## the whole struct: model bytes = reference bytes of `recordsOf` -/
 
@@ -935,6 +967,12 @@ theorem payload_ok (t : Ty) (o : FieldOpt) (v : Val) (wz : Bool) (num : Nat)
     split at hp
     · cases hp
     · cases hp; exact ⟨h0, hn, Nat.lt_of_le_of_lt (encRec_len_ge _ _) hlen⟩
+  case arr n e =>
+    cases v <;> simp only [hasType] at hv <;> try (exact absurd hv (by decide))
+    simp only [payload] at hp
+    split at hp
+    · cases hp; exact ⟨h0, hn, Nat.lt_of_le_of_lt (encRec_len_ge _ _) hlen⟩
+    · cases hp
 
 /-- every record of a well-typed value is one the wire format can carry -/
 theorem recordsOf_ok : ∀ (fs : Fields) (vs : Vals) (wz : Bool) (pos : Nat),
